@@ -265,15 +265,40 @@ func aggrLevel(mode string, metas []chunks.Meta, acs []*downsample.AggrChunk, r1
 	return res, ""
 }
 
-// generous: the machine is shared and a child needs 0.1-2 s to start; a call that does not return
-// costs this much
-var childDeadline = 12 * time.Second
+// A call that does not return spins: the child is declared hung once it has burnt childCPU of
+// CPU time (read from /proc), not after a wall-clock time — the machine is shared and a starved
+// child may need many seconds of wall time for a few milliseconds of work.  childWall is only a
+// last resort.
+var (
+	childCPU  = 4 * time.Second
+	childWall = 180 * time.Second
+)
 
-// runChild re-executes this binary on one op line with a deadline; a child that does not answer
-// in time is killed and the answer is `hang`.
+// cpuTime returns utime+stime of a process from /proc/<pid>/stat.
+func cpuTime(pid int) time.Duration {
+	b, err := os.ReadFile(fmt.Sprintf("/proc/%d/stat", pid))
+	if err != nil {
+		return 0
+	}
+	s := string(b)
+	i := strings.LastIndexByte(s, ')')
+	if i < 0 {
+		return 0
+	}
+	f := strings.Fields(s[i+1:])
+	if len(f) < 13 {
+		return 0
+	}
+	ut, _ := strconv.ParseInt(f[11], 10, 64)
+	st, _ := strconv.ParseInt(f[12], 10, 64)
+	return time.Duration(ut+st) * time.Second / 100 // USER_HZ = 100
+}
+
+// runChild re-executes this binary on one op line; a child that keeps burning CPU without
+// answering is killed and the answer is `hang`.
 func runChild(op string) string {
 	cmd := exec.Command(os.Args[0], "child-op")
-	cmd.Env = append(os.Environ(), "VERIF_DS_CHILD=1", "GOMEMLIMIT=2GiB")
+	cmd.Env = append(os.Environ(), "VERIF_DS_CHILD=1", "GOMEMLIMIT=2GiB", "GOMAXPROCS=2")
 	cmd.Stdin = strings.NewReader(op + "\n")
 	var out bytes.Buffer
 	cmd.Stdout = &out
@@ -282,13 +307,20 @@ func runChild(op string) string {
 	}
 	done := make(chan error, 1)
 	go func() { done <- cmd.Wait() }()
-	select {
-	case <-done:
-		return strings.TrimSpace(out.String())
-	case <-time.After(childDeadline):
-		_ = cmd.Process.Kill()
-		<-done
-		return "hang"
+	start := time.Now()
+	tick := time.NewTicker(100 * time.Millisecond)
+	defer tick.Stop()
+	for {
+		select {
+		case <-done:
+			return strings.TrimSpace(out.String())
+		case <-tick.C:
+			if cpuTime(cmd.Process.Pid) >= childCPU || time.Since(start) >= childWall {
+				_ = cmd.Process.Kill()
+				<-done
+				return "hang"
+			}
+		}
 	}
 }
 
